@@ -12,7 +12,7 @@ import (
 
 func init() {
 	checks["C07"] = checkC07
-	explanations["C07"] = "Structural necessary condition (E1 must-pass from (*TO1Server).Respond): a function in that region returns a To1d blob successfully only after (a) the decoded EAT nonce equals Session.TO1ProofNonce (read err==nil), (b) the decoded UEID has the GUID length and RAND type, (c) RVBlob(guid from that UEID) err==nil, (d) DevicePublicKey of the voucher returned by RVBlob err==nil and (e) Sign1.Verify on the decoded token under that key is true && err==nil; the returned blob derives from the RVBlob result through Tag() only. In the sqlite backend RVBlob succeeds only on the not-expired edge of time.Now().After(exp), and the expiry column is written and read with matching time units. The device-side signature check on the blob is C01's. Not decided: byte fidelity through storage re-encoding (C11), expiry in other backends, clock behaviour."
+	explanations["C07"] = "Structural necessary condition (E1 must-pass from (*TO1Server).Respond): a function in that region returns a To1d blob successfully only after (a) the decoded EAT nonce equals Session.TO1ProofNonce (read err==nil), (b) the decoded UEID has the GUID length and RAND type, (c) RVBlob(guid from that UEID) err==nil, (d) DevicePublicKey of the voucher returned by RVBlob err==nil and (e) Sign1.Verify on the decoded token under that key is true && err==nil; the returned blob derives from the RVBlob result through Tag() only. In the sqlite backend RVBlob succeeds only on the not-expired edge of time.Now().After(exp), and the expiry column is written and read with matching time units. The device-side signature check on the blob is C01's. Also: where the expiry given to SetRVBlob is computed from a duration (TO0 and the all-in-one auto-registration), the value stored for a positive duration is Now().Add(duration) with no further date arithmetic. Not decided: byte fidelity through storage re-encoding (C11), expiry in other backends, clock behaviour."
 }
 
 func c07Rules() *RuleSet {
